@@ -225,3 +225,43 @@ def _per_from_overlap(ctx):
             if total != len(n.r.alpha.chars()):
                 return True
     return False
+
+
+def _int_like(s):
+    try:
+        int(s)
+        return True
+    except (ValueError, TypeError):
+        return False
+
+
+def _digits_default_via_ref(spec):
+    """a member whose type is a *reference* to a character string type with a DEFAULT that int() accepts"""
+    from . import common
+    for m in spec.modules:
+        for _, t in m.types:
+            for n in common.walk_types(spec, t, m.name):
+                mem = n.member
+                if (mem is not None and mem.has_default and n.ty.kind == 'REF'
+                        and n.r.base.kind in asn.STRING_KINDS and isinstance(mem.default, str)
+                        and _int_like(mem.default)):
+                    return True
+    return False
+
+
+@finding(BINARY + ('C02', 'C20'), 'cstring-default-via-ref-digits')
+def _cstring_default_via_ref(ctx):
+    # parser.py convert_value: the member type is a reference, so a cstring DEFAULT made of digits
+    # is converted with int()
+    return ctx.spec is not None and _digits_default_via_ref(ctx.spec)
+
+
+@finding('C19', 'cstring-default-via-ref-digits')
+def _cstring_default_via_ref_c19(ctx):
+    from . import jsonio
+    try:
+        a = jsonio.spec_dec(ctx.case['arranged'])
+        o = jsonio.spec_dec(ctx.case['spec'])
+    except Exception:
+        return False
+    return _digits_default_via_ref(a) != _digits_default_via_ref(o)
